@@ -186,6 +186,92 @@ impl HeaderSweep {
     }
 }
 
+// ---------------------------------------------------------------------------------------------
+// the length-field sweep shared by C01, C08, C09, C12, C18, C19
+// ---------------------------------------------------------------------------------------------
+
+/// A version-2 packet image given by its header and its real length; the body is zeros. Kept
+/// symbolic (the images go up to 256 KiB) and materialised by the oracle.
+#[derive(Clone, Debug, PartialEq, Eq, Hash, serde::Serialize, serde::Deserialize)]
+pub struct LenCase {
+    pub pt: u8,
+    pub count: u8,
+    pub p: bool,
+    /// the 16-bit length field
+    pub lf: u16,
+    /// the real length in bytes
+    pub len: u32,
+    /// the final byte (the padding count when P is set)
+    pub last: u8,
+}
+
+impl LenCase {
+    pub fn bytes(&self) -> Bytes {
+        let len = self.len as usize;
+        let mut b = vec![0u8; len];
+        let hdr = [0x80 | (self.p as u8) << 5 | (self.count & 31), self.pt, (self.lf >> 8) as u8, self.lf as u8];
+        for (i, h) in hdr.iter().enumerate() {
+            if i < len {
+                b[i] = *h;
+            }
+        }
+        if len > 4 {
+            b[len - 1] = self.last;
+        }
+        Bytes(b)
+    }
+    pub fn exact(&self) -> bool {
+        self.len as usize == 4 * (self.lf as usize + 1)
+    }
+}
+
+/// the length fields visited: all 65536 in the thorough tier; in the quick tier every value below
+/// 1024, every value whose low byte is 00/01/fe/ff (carries between the two bytes), every 61st value
+pub fn len_fields(tier: Tier) -> Vec<u16> {
+    (0..=0xffffu32)
+        .filter(|lf| tier == Tier::Thorough || *lf < 1024 || matches!(lf & 0xff, 0 | 1 | 0xfe | 0xff) || lf % 61 == 0)
+        .map(|lf| lf as u16)
+        .collect()
+}
+
+pub const LEN_VARIANTS: u64 = 7;
+
+/// variant 0: exactly framed; 1: exactly framed and padded (P, last byte 4); 2 and 3: the real length is that of
+/// the length field with one bit flipped (a lost or invented carry); 4, 5: one word longer / shorter; 6: exactly
+/// framed, P set, final byte 0
+pub fn len_case(lfs: &[u16], i: u64) -> LenCase {
+    let lf = lfs[(i / LEN_VARIANTS) as usize % lfs.len()];
+    let v = i % LEN_VARIANTS;
+    let pt = [200u8, 201, 202, 203, 204, 205, 206, 207][(lf as usize + v as usize) % 8];
+    let words = lf as u32 + 1;
+    let (len, p, last) = match v {
+        0 => (4 * words, false, 0),
+        1 => (4 * words, true, 4),
+        2 => (4 * ((lf ^ (1 << (lf % 16))) as u32 + 1), false, 0),
+        3 => (4 * ((lf ^ (1 << ((lf / 16) % 16))) as u32 + 1), false, 0),
+        4 => (4 * (words + 1), false, 0),
+        5 => (4 * (words - 1), false, 0),
+        _ => (4 * words, true, 0),
+    };
+    LenCase { pt, count: 0, p, lf, len, last }
+}
+
+pub(crate) fn c08_len_oracle(c: &LenCase, st: &mut Stats) -> Verdict {
+    st.label(if c.exact() { "exactly framed" } else { "length field and real length differ" });
+    c08_oracle(&c.bytes(), st)
+}
+
+pub(crate) fn c18_len_oracle(c: &LenCase, st: &mut Stats) -> Verdict {
+    st.label(if c.exact() { "exactly framed" } else { "length field and real length differ" });
+    c18_oracle(&c.bytes(), st)
+}
+
+pub fn len_leg(tier: Tier, oracle: Oracle<LenCase>) -> Box<dyn Leg> {
+    let lfs = std::sync::Arc::new(len_fields(tier));
+    let n = lfs.len() as u64 * LEN_VARIANTS;
+    Box::new(SweepLeg { name: "every-length-field", n, at: Box::new(move |i| len_case(&lfs, i)), oracle, exhaustive: tier == Tier::Thorough })
+}
+
 pub fn c08(tier: Tier) -> Check {
     let sweep = std::sync::Arc::new(HeaderSweep::new(tier));
     let n = sweep.n();
@@ -199,6 +285,7 @@ pub fn c08(tier: Tier) -> Check {
         legs: vec![
             Box::new(RandomLeg { name: "generated-strings", cases: tier.pick(150_000, 4_000_000), make: Box::new(gen::parser_input), oracle: c08_oracle }),
             Box::new(SweepLeg { name: "header-space", n, at: Box::new(move |i| sweep.at(i)), oracle: c08_oracle, exhaustive: true }),
+            len_leg(tier, c08_len_oracle),
         ],
     }
 }
@@ -379,11 +466,14 @@ pub fn c18(tier: Tier) -> Check {
         property: "C18",
         rule: "cases = byte strings as for C08 (generated + header-space sweep); parsers: the 7 typed parsers, Packet, Unknown, Compound (+ errors yielded by its iteration), ReportBlock, the 5 FCI parsers, Packet::try_as; \
                oracle on Err(e): UnsupportedVersion(v) => v == input version != 2; PacketTypeMismatch => actual == type byte, requested == the parser's type, they differ; Truncated => expected > actual; TooLarge => expected < actual; \
+               + every length field (all 65536 in the thorough tier) x {exact, exact+padded, one bit of the length flipped (2 ways), one word longer / shorter, P with a zero count}, zero bodies up to 256 KiB; + SDES-shaped bodies; \
                exact predictions: len < MIN => Truncated{MIN,len}; version 2, right type, len >= MIN, len != 4*(lf+1) => Truncated/TooLarge{4*(lf+1),len} by sign; non-trivial = some parser produced an error",
         assumptions: vec!["other error variants (InvalidPadding, Sdes*, WrongImplementation) carry no claim in the statement and are not judged"],
         legs: vec![
             Box::new(RandomLeg { name: "generated-strings", cases: tier.pick(120_000, 3_000_000), make: Box::new(gen::parser_input), oracle: c18_oracle }),
             Box::new(SweepLeg { name: "header-space", n, at: Box::new(move |i| sweep.at(i)), oracle: c18_oracle, exhaustive: true }),
+            len_leg(tier, c18_len_oracle),
+            Box::new(RandomLeg { name: "sdes-shaped", cases: tier.pick(100_000, 2_000_000), make: Box::new(|| proptest::strategy::Strategy::boxed(proptest::prop_oneof![super::sdes::token_level(), super::sdes::mutated_sdes()])), oracle: c18_oracle }),
         ],
     }
 }
